@@ -193,8 +193,13 @@ func (brr *BalanceRR) Update(conf cluster_table_conf.SubClusterBackend) {
 		}
 	}
 
-	// add new backend to backendsNew
-	for _, bkConf := range confMap {
+	// add new backend to backendsNew, in the order of the config file
+	// (ranging over confMap would make the list order, and so the first
+	// scheduling decisions, depend on map iteration order)
+	for _, bkConf := range conf {
+		if confMap[bkConf.AddrInfo()] != bkConf {
+			continue
+		}
 		backendRR := NewBackendRR()
 		backendRR.Init(brr.Name, bkConf)
 		backend := backendRR.backend
